@@ -26,9 +26,14 @@ func (k Keeper) BeginBlocker(ctx context.Context) error {
 			err = k.ExecuteStartedStatus(ctx, auction)
 		case types.AuctionStatusVesting:
 			err = k.ExecuteVestingStatus(ctx, auction)
+		case types.AuctionStatusFinished, types.AuctionStatusCancelled:
+			// Nothing is left to do for a finished or cancelled auction
 		default:
 			err = fmt.Errorf("invalid auction status %s", auction.GetStatus())
 		}
+		if err != nil {
+			return err
+		}
 	}
-	return err
+	return nil
 }
